@@ -28,6 +28,11 @@ func ReadPEM(pemBytes []byte, callback PEMBlockCallback) error {
 
 	for {
 		block, next = pem.Decode(next)
+		if block == nil {
+			// no (further) PEM data
+			break
+		}
+
 		if err := callback(idx, block.Type, block.Headers, block.Bytes); err != nil {
 			return err
 		}
